@@ -129,6 +129,9 @@ func (u *PacketUnderlay) Close() error {
 	// Unblock any pending I/O before closing sessions.
 	u.conn.SetReadDeadline(time.Now())
 	u.baseUnderlay.Close()
+	// The event loop may have armed a new read timeout while the sessions
+	// were closing. Now that done is closed, wake it up again so it exits.
+	u.conn.SetReadDeadline(time.Now())
 	return nil
 }
 
@@ -379,6 +382,14 @@ func (u *PacketUnderlay) readOneSegment() (*segment, net.Addr, error) {
 		// Use the largest possible value here to avoid error.
 		b := make([]byte, 1500)
 		common.SetReadTimeout(u.conn, readOneSegmentTimeout)
+		// Close() closes done before it resets the read deadline for the last
+		// time. Checking done after arming the timeout guarantees that either
+		// this check or the ReadFrom() below observes the shutdown.
+		select {
+		case <-u.done:
+			return nil, nil, io.ErrClosedPipe
+		default:
+		}
 		n, addr, err := u.conn.ReadFrom(b)
 		if err != nil {
 			if stderror.IsTimeout(err) {
